@@ -47,6 +47,8 @@ def _mask_dont_care(out):
         try:
             if x == "B":
                 dc = False
+            elif x == "DTN" and i + 2 < len(t) and t[i + 1] == "1" and t[i + 2] == "x6e6f6e65":
+                dc = True          # an endpoint whose dtn NAME is the text "none": anonymous or not is undecided (props/c07.py dont_care)
             elif x == "P" and i + 2 < len(t) and (int(t[i + 2]) & 0xE218) == 0xE218:
                 dc = True
             elif x == "C" and i + 3 < len(t) and (int(t[i + 3]) & 0xF0) == 0xF0:
